@@ -1,7 +1,8 @@
 (* C04 - automatic edge ids are always fresh; adding never overwrites (Hypergraph part). *)
 From Coq Require Import String ZArith List Bool.
 From XV Require Import Base.Label Base.LSet Base.ODict Base.Attr Base.Outcome Model.Hypergraph
-  Proofs.HgViews Proofs.HgInv Proofs.HgInvOps Proofs.HgStep.
+  Model.DiHypergraph Model.SimplicialComplex
+  Proofs.HgViews Proofs.HgInv Proofs.HgInvOps Proofs.HgStep Proofs.DiInv Proofs.ScInv.
 Import ListNotations.
 Open Scope Z_scope.
 
@@ -9,6 +10,20 @@ Open Scope Z_scope.
 Theorem C04_history_uid_hg : forall ops, admissible_history hg_empty ops -> UidInv (run ops hg_empty).
 Proof. intros ops A. destruct (run_Inv ops hg_empty A Inv_empty) as (_ & _ & _ & U). exact U. Qed.
 Print Assumptions C04_history_uid_hg.
+
+(* the same for directed hypergraphs (both sides share the counter) and simplicial complexes,
+   for every history of their own alphabets *)
+Theorem C04_history_uid_di : forall ops,
+  UidInv (ts (drun ops dhg_empty)) /\ h_uid (ts (drun ops dhg_empty)) = h_uid (hs (drun ops dhg_empty)).
+Proof.
+  intro ops. destruct (drun_DInv ops dhg_empty DInv_empty) as ((_ & _ & _ & U) & _ & (_ & _ & A)).
+  split; assumption.
+Qed.
+Print Assumptions C04_history_uid_di.
+
+Theorem C04_history_uid_sc : forall ops, UidInv (srun ops hg_empty).
+Proof. intro ops. destruct (srun_SInv ops hg_empty SInv_empty) as ((_ & _ & _ & U) & _). exact U. Qed.
+Print Assumptions C04_history_uid_sc.
 
 (* hence the id an automatic addition will use is not present *)
 Theorem C04_auto_fresh : forall s, Inv s -> ~ In (LInt (h_uid s)) (ekeys s).
